@@ -11,6 +11,13 @@
 // decision of a FRESH manager pair opened over the same database file (cache-free evaluation of the same
 // stored state). The probe protocol is part of the transition, so caches are warm when the next mutation
 // arrives — which is exactly the situation in which a missing invalidation shows.
+//
+// Phase 2 (conc.go, explore.go) runs next to the BFS in worker processes: ONE mutation racing ONE permission check,
+// every schedule up to a deviation bound under the cooperative scheduler, judged by the same fresh-manager oracle
+// after both calls returned. The workers are a SECOND binary of this same package, built by this program at start-up
+// (build tag c20conc, overlay conc.overlay.cfg.json: internal/auth rewritten onto the scheduler shims - locks,
+// goroutines, channels, clock, and the 1-connection database pool; VERIF_REPLACE reaches it through overlaygen), so
+// that phase 1 keeps running on internal/auth exactly as it is in the repository.
 package main
 
 import (
@@ -21,6 +28,7 @@ import (
 	"os"
 	"os/signal"
 	"path/filepath"
+	"runtime"
 	"sort"
 	"strings"
 	"sync"
@@ -32,6 +40,7 @@ import (
 	araft "github.com/basekick-labs/arc/internal/cluster/raft"
 	"github.com/basekick-labs/arc/internal/license"
 	"github.com/basekick-labs/arc/zzverif/engine/ev"
+	"github.com/basekick-labs/arc/zzverif/engine/sched"
 	"github.com/basekick-labs/arc/zzverif/engine/xstate"
 	hraft "github.com/hashicorp/raft"
 	_ "github.com/mattn/go-sqlite3"
@@ -108,6 +117,10 @@ var (
 	}
 )
 
+// afterOpen is nil in phase 1. Phase 2 (scheduler attached) uses it to let the managers' background goroutines reach
+// their parking select right after the constructors, so that the rest of the set-up has no scheduling alternatives.
+var afterOpen func()
+
 type world struct {
 	mode int
 	path string
@@ -171,6 +184,9 @@ func newWorld(mode int, from *seeded) *world {
 	w.am = am
 	w.rm = auth.NewRBACManager(&auth.RBACManagerConfig{DB: am.GetDB(), LicenseClient: lic, Logger: zerolog.Nop(),
 		CacheTTL: time.Hour, MaxCascadeDescendants: 50000})
+	if afterOpen != nil {
+		afterOpen()
+	}
 	if mode == cluster {
 		w.fsm = araft.NewClusterFSM(zerolog.Nop())
 		if from != nil {
@@ -219,6 +235,7 @@ func (p proposer) Propose(_ context.Context, ct uint8, payload []byte, _ time.Du
 // unbound removes the scratch directory before reporting that the harness cannot bind (exit 2).
 func unbound(msg string) {
 	os.RemoveAll(root)
+	concCleanupNow()
 	ev.Unbound(msg)
 }
 
@@ -349,7 +366,7 @@ func has[T ~[3]string | ~[4]string | ~[5]string](rows []T, id int64) bool {
 
 // refresh re-reads the tables and clears slots whose row is gone (deleted directly or by cascade).
 func (w *world) refresh() tables {
-	t := readTables(w.am.GetDB())
+	t := readTables(realDB(w.am.GetDB()))
 	for i := 0; i < 2; i++ {
 		if w.org[i] != 0 && !has(t.org, w.org[i]) {
 			w.org[i] = 0
@@ -1055,7 +1072,53 @@ func report(sc *scenario, hist []int, c int, nf map[string][]string) {
 	mu.Unlock()
 }
 
+// initTemplate creates the migrated template database (migrations run once per process) and checks the licence seam.
+func initTemplate(exit func()) {
+	p := filepath.Join(root, "template.db")
+	am, err := auth.NewAuthManager(p, time.Hour, 100, zerolog.Nop())
+	if err != nil {
+		exit()
+		unbound("template: " + err.Error())
+	}
+	am.Close()
+	if tmpl, err = os.ReadFile(p); err != nil || len(tmpl) == 0 {
+		exit()
+		unbound("template read")
+	}
+	if _, err := os.Stat(p + "-wal"); err == nil {
+		exit()
+		unbound("template database still has a WAL file after Close")
+	}
+	os.Remove(p)
+	os.Remove(p + "-shm")
+	w := newWorld(direct, nil)
+	ok := w.rm.IsRBACEnabled()
+	w.close()
+	if !ok {
+		exit()
+		unbound("licence seam: RBACManager.IsRBACEnabled() is false")
+	}
+}
+
 func main() {
+	if e := os.Getenv("VERIF_C20_CONC"); e != "" {
+		concWorkerMain(e) // phase-2 worker process
+	}
+	// VERIF_SCHED_REPLAY / VERIF_SCHED_FREERUN modes of the scheduler engine (the free-running -race pass takes the
+	// quick tier's single-checker scenarios from the rbac-cold pre-state: one per API method and mode)
+	sched.Main(func() []sched.Scenario {
+		all := concScenarios()
+		if os.Getenv("VERIF_SCHED_FREERUN") == "" {
+			return all
+		}
+		var l []sched.Scenario
+		for i, sp := range concSpecs() {
+			if sp.quick && sp.checker == "single" && sp.pre == "rbac-cold" {
+				l = append(l, all[i])
+			}
+		}
+		return l
+	})
 	run := ev.Start("C20", "model_checking")
 	quick := run.Quick()
 	if !quick && os.Getenv("VERIF_DEADLINE_S") == "" {
@@ -1070,37 +1133,22 @@ func main() {
 	exit := func() { os.RemoveAll(root) }
 	sig := make(chan os.Signal, 1)
 	signal.Notify(sig, os.Interrupt, syscall.SIGTERM, syscall.SIGPIPE, syscall.SIGHUP)
-	go func() { <-sig; os.RemoveAll(root); os.Exit(130) }()
-	// template database: migrations run once
-	{
-		p := filepath.Join(root, "template.db")
-		am, err := auth.NewAuthManager(p, time.Hour, 100, zerolog.Nop())
-		if err != nil {
-			exit()
-			unbound("template: " + err.Error())
-		}
-		am.Close()
-		if tmpl, err = os.ReadFile(p); err != nil || len(tmpl) == 0 {
-			exit()
-			unbound("template read")
-		}
-		if _, err := os.Stat(p + "-wal"); err == nil {
-			exit()
-			unbound("template database still has a WAL file after Close")
-		}
-		w := newWorld(direct, nil)
-		ok := w.rm.IsRBACEnabled()
-		w.close()
-		if !ok {
-			exit()
-			unbound("licence seam: RBACManager.IsRBACEnabled() is false")
-		}
-	}
+	go func() { <-sig; os.RemoveAll(root); concCleanupNow(); os.Exit(130) }()
+	initTemplate(exit)
 
 	if run.Replay != "" {
 		replay(run)
 		exit()
 		run.Finish()
+	}
+
+	// phase 2 (one mutation racing one permission check, all schedules to the deviation bound) runs in worker
+	// processes next to the BFS of phase 1
+	phases := os.Getenv("VERIF_C20_PHASE") // "" = both; "1" / "2" = only that phase (development aid; recorded in the evidence)
+	var concDone chan *concSummary
+	if phases != "1" {
+		concDone = make(chan *concSummary, 1)
+		go func() { concDone <- runConcurrent(run, concPar()) }()
 	}
 
 	hierarchy := idx("createOrg(O1)", "createOrg(O2)", "createTeam(T1)", "createTeam(T2)", "createRole(R1,*,read)", "createRole(R2,db1,read+write)",
@@ -1136,6 +1184,9 @@ func main() {
 			scs = append(scs, &scenario{name: modeName[mode] + "/" + sp.name, mode: mode, seed: sp.seed, alpha: sp.alpha, depth: pick(quick, sp.dq, sp.dt)})
 		}
 	}
+	if phases == "2" {
+		scs = nil
+	}
 	if f := os.Getenv("VERIF_C20_ONLY"); f != "" {
 		var keep []*scenario
 		for _, sc := range scs {
@@ -1146,42 +1197,77 @@ func main() {
 		scs = keep
 	}
 
-	samples := ev.NewSamples(10)
+	samples := ev.NewSamples(11)
 	distinct := sync.Map{}
 	totalStates, totalTrans := 0, int64(0)
 	complete := true
-	var per []map[string]any
-	for _, sc := range scs {
-		sc := sc
-		t0 := time.Now()
-		sc.start = buildSeed(sc.mode, sc.seed)
-		var disabled atomic.Int64
-		var sampled atomic.Bool
-		res := xstate.BFS(xstate.Config{NCmds: len(sc.alpha), MaxDepth: sc.depth, Stop: run.TimeUp,
-			Expand: func(hist []int, wantKey string, leaf bool, visit func(int, string)) {
-				if leaf {
-					return // judged when it was generated
-				}
-				expand(sc, hist, wantKey, &disabled, func(c int, key, decisions string, nf map[string][]string) {
-					if c < 0 {
-						report(sc, nil, -1, nf)
-						return
+	// The scenarios are independent searches; they run side by side (at most bfsPar at a time, the largest first)
+	// because a level-synchronous BFS leaves most cores idle on its small early frontiers. What is explored is
+	// the same as when they run one after the other.
+	per := make([]map[string]any, len(scs))
+	lines := make([]string, len(scs))
+	type scOut struct {
+		states   int
+		trans    int64
+		complete bool
+	}
+	outs := make([]scOut, len(scs))
+	startOrder := make([]int, len(scs))
+	for i := range startOrder {
+		startOrder[i] = i
+	}
+	weight := func(sc *scenario) int { // B > C > A > D > E (measured transition counts)
+		if i := strings.IndexByte(sc.name, '/'); i >= 0 && i+1 < len(sc.name) {
+			return strings.IndexByte("BCADE", sc.name[i+1])
+		}
+		return 9
+	}
+	sort.SliceStable(startOrder, func(a, b int) bool { return weight(scs[startOrder[a]]) < weight(scs[startOrder[b]]) })
+	bfsPar, bfsWorkers := 4, max(4, runtime.NumCPU()/2)
+	var wgS sync.WaitGroup
+	semS := make(chan struct{}, bfsPar)
+	for _, si := range startOrder {
+		si, sc := si, scs[si]
+		wgS.Add(1)
+		semS <- struct{}{}
+		go func() {
+			defer wgS.Done()
+			defer func() { <-semS }()
+			t0 := time.Now()
+			sc.start = buildSeed(sc.mode, sc.seed)
+			var disabled atomic.Int64
+			var sampled atomic.Bool
+			res := xstate.BFS(xstate.Config{NCmds: len(sc.alpha), MaxDepth: sc.depth, Workers: bfsWorkers, Stop: run.TimeUp,
+				Expand: func(hist []int, wantKey string, leaf bool, visit func(int, string)) {
+					if leaf {
+						return // judged when it was generated
 					}
-					report(sc, hist, c, nf)
-					distinct.Store(decisions, true)
-					if len(hist)+1 == sc.depth && strings.Contains(decisions, "A") && strings.Contains(decisions, "D") && sampled.CompareAndSwap(false, true) {
-						samples.Add(map[string]any{"scenario": sc.name, "seed": opNames(sc.seed), "history": names(append(append([]int{}, hist...), c)),
-							"fresh_decisions": decisions})
-					}
-					visit(c, key)
-				})
-			}})
-		totalStates += res.States
-		totalTrans += res.Transitions
-		complete = complete && res.Complete
-		per = append(per, map[string]any{"scenario": sc.name, "alphabet": len(sc.alpha), "seed_len": len(sc.seed), "depth": sc.depth, "states": res.States,
-			"transitions": res.Transitions, "per_depth_frontier": res.PerDepth, "disabled_ops_skipped": disabled.Load(), "complete": res.Complete, "wall_s": time.Since(t0).Seconds()})
-		fmt.Printf("scenario %q: alphabet=%d depth=%d states=%d transitions=%d frontier=%v complete=%v %.1fs\n", sc.name, len(sc.alpha), sc.depth, res.States, res.Transitions, res.PerDepth, res.Complete, time.Since(t0).Seconds())
+					expand(sc, hist, wantKey, &disabled, func(c int, key, decisions string, nf map[string][]string) {
+						if c < 0 {
+							report(sc, nil, -1, nf)
+							return
+						}
+						report(sc, hist, c, nf)
+						distinct.Store(decisions, true)
+						if len(hist)+1 == sc.depth && strings.Contains(decisions, "A") && strings.Contains(decisions, "D") && sampled.CompareAndSwap(false, true) {
+							samples.Add(map[string]any{"scenario": sc.name, "seed": opNames(sc.seed), "history": names(append(append([]int{}, hist...), c)),
+								"fresh_decisions": decisions})
+						}
+						visit(c, key)
+					})
+				}})
+			outs[si] = scOut{res.States, res.Transitions, res.Complete}
+			per[si] = map[string]any{"scenario": sc.name, "alphabet": len(sc.alpha), "seed_len": len(sc.seed), "depth": sc.depth, "states": res.States,
+				"transitions": res.Transitions, "per_depth_frontier": res.PerDepth, "disabled_ops_skipped": disabled.Load(), "complete": res.Complete, "wall_s": time.Since(t0).Seconds()}
+			lines[si] = fmt.Sprintf("scenario %q: alphabet=%d depth=%d states=%d transitions=%d frontier=%v complete=%v %.1fs", sc.name, len(sc.alpha), sc.depth, res.States, res.Transitions, res.PerDepth, res.Complete, time.Since(t0).Seconds())
+		}()
+	}
+	wgS.Wait()
+	for i := range scs {
+		totalStates += outs[i].states
+		totalTrans += outs[i].trans
+		complete = complete && outs[i].complete
+		fmt.Println(lines[i])
 	}
 
 	// minimise one representative per (mode, kind, last op), in parallel, then classify by minimal form
@@ -1252,6 +1338,20 @@ func main() {
 			"found_at": names(append(append(append([]int{}, r.sc.seed...), check), r.hist...)), "first_new_failures": head(r.descs, 6), "raw_transitions_in_class": r.n})
 	}
 
+	if concDone != nil {
+		sum := <-concDone
+		reportConcurrent(run, sum)
+		complete = complete && sum.complete
+		run.Coverage["schedules"] = sum.schedules
+		if sum.sample != nil {
+			samples.Add(sum.sample)
+		}
+		run.Coverage["traces_validated_against_impl_concurrent"] = sum.schedules
+	}
+	if phases != "" {
+		run.Coverage["phases_run"] = phases
+		complete = false
+	}
 	run.Coverage["states"] = totalStates
 	run.Coverage["transitions"] = totalTrans
 	run.Coverage["traces_validated_against_impl"] = totalTrans
@@ -1277,6 +1377,7 @@ func main() {
 	run.Assume("state de-duplication renames entity ids to slot names: behaviour is assumed invariant under renaming of surrogate ids (ids are only compared for equality; ORDER BY id only orders an any-match loop)")
 	run.Assume("PBKDF2 iteration count overridden to 1 at build time (test-time parameter only); cache TTLs set to 1 h so that no entry expires during a history (TTL expiry is not the invalidation under test)")
 	run.Assume("cluster-apply mode: single node that is the Raft leader; the proposer applies each command synchronously through the real ClusterFSM whose callbacks call the real Apply* materialisers as cmd/arc/main.go wires them; hashicorp/raft replication and follower lag are not explored")
+	run.Assume("phase 2 (concurrent): two client threads only (one mutator, one checker) plus the managers' own background goroutines; deviation bounds as reported per cache pre-state (a schedule needing more deviations from the mutator-first default is not explored); the decision the overlapping check itself returns is not judged (it may legitimately be the old or the new one), only checks made after both calls returned; database/sql pool modelled as a counting semaphore with the limit the code sets (SetMaxOpenConns(1)), SQLite itself runs for real; interleavings inside one SQL statement and data races are out of scope (cooperative scheduling at synchronisation operations; run `./check C20 race` for the free-running -race pass); virtual clock (1 us per reading), cache TTL 1 h")
 	run.Assume("a decision is the Allowed bit obtained as the HTTP path obtains it: AuthManager.VerifyToken(token value) then RBACManager.CheckPermission / CheckPermissionsBatch with that TokenInfo; a value that no longer authenticates is its own outcome; Source/Reason strings are not compared")
 	exit()
 	run.Finish()
@@ -1300,8 +1401,12 @@ func replay(run *ev.Run) {
 		unbound("replay file: " + err.Error())
 	}
 	var raw map[string]any
-	if err := json.Unmarshal(art.Raw, &art.Replay); err != nil || json.Unmarshal(art.Raw, &raw) != nil || len(art.Replay.Operations) == 0 {
+	if err := json.Unmarshal(art.Raw, &art.Replay); err != nil || json.Unmarshal(art.Raw, &raw) != nil || (len(art.Replay.Operations) == 0 && raw["phase"] == nil) {
 		unbound("replay file: not a C20 artefact")
+	}
+	if ph, _ := raw["phase"].(string); ph == "concurrent" {
+		replayConcurrent(run, raw)
+		return
 	}
 	mode := direct
 	if art.Replay.Mode == modeName[cluster] {
